@@ -412,6 +412,15 @@ class Run:
         pt = list(x.data)
         v = self.gu(pt)
         self.gcalls.append((pt, v))
+        if getattr(self, "jac_buffer", False):
+            # a user gradient that fills one preallocated work array and returns it every time (legitimate: the
+            # package must not keep a reference to what the user's callable returned)
+            if getattr(self, "_gbuf", None) is None:
+                self._gbuf = self.prob.W.np.array(list(v))
+            else:
+                for i, t in enumerate(v):
+                    self._gbuf[i] = t
+            return self._gbuf
         return self.prob.W.np.array(list(v))
 
     def execute(self, cfg):
